@@ -195,6 +195,14 @@ impl PrometheusBuilder {
         Ok(self)
     }
 
+    /// Verification hook: the allowlist accumulated so far (`None` = no allowlist configured).
+    #[cfg(all(metrics_verif, feature = "http-listener"))]
+    #[doc(hidden)]
+    #[must_use]
+    pub fn verif_allowed_addresses(&self) -> Option<Vec<IpNet>> {
+        self.allowed_addresses.clone()
+    }
+
     /// Sets the quantiles to use when rendering histograms.
     ///
     /// Quantiles represent a scale of 0 to 1, where percentiles represent a scale of 1 to 100, so a quantile of 0.99 is
